@@ -6,12 +6,27 @@ from props import _objgen as G
 from props._gitobj import GitRepo
 
 ID = "C03"
-THEOREMS = []
+THEOREMS = ["C03_payload_commit_refuted", "C03_sig_commit_refuted", "C03_strip_commit_partial", "C03_payload_commit_partial",
+            "C03_sig_commit_partial", "C03_accepts_iff_commit", "C03_fresh_matches_source", "C03_payload_tag_refuted"]
 MODEL_FILES = ["ObjLines.v", "Ident.v", "Commit.v", "Tag.v", "SigPayload.v"]
-MODELLED = "wip"
-TRUSTED = []
-ASSUMPTIONS = []
-RULE = "wip"
+MODELLED = ("plumbing/object/signature.go: isSignatureHeader, stripHeaderSignatures, stripObjectSignatures, parseSignedBytes, "
+            "countSignatureBlocks, typeForSignature; commit.go/tag.go: EncodeWithoutSignature, matchesSource, signatureEqual, and the "
+            "scanners that fill Commit.Signature / Tag.Signature (Model/SigPayload.v on top of Model/Commit.v, Model/Tag.v, Model/Ident.v). "
+            "S: Spec/GitSig.v = git 2.39 commit.c parse_buffer_signed_by_header (verify-commit), gpg-interface.c parse_signed_buffer + "
+            "parse_signature with commit.c's two-slot remove_signature (verify-tag). Not modelled: openpgp verification itself (a verifier "
+            "is any function of payload and signature), Commit.Verify's key-ring handling, SHA-256 repositories (gpgsig-sha256 as THE signature)")
+TRUSTED = [
+    "C-impl: EncodeWithoutSignature / Signature fields of decoded (and mutated) commits and tags through harness/cmd/c03 vs Model/SigPayload on every case",
+    "C-git: Spec/GitSig (S) vs the payload and signature git 2.39.5 hands to gpg.program / gpg.x509.program / gpg.ssh.program "
+    "(a script that dumps stdin and the signature file) during `git verify-commit` / `git verify-tag`, on the same stored objects",
+    "the known-finding classes are decided by the boolean guards of Spec/SigGuards (the hypotheses of the _partial theorems), evaluated by Coq",
+]
+ASSUMPTIONS = ["SHA-1 repository: git verifies the `gpgsig` header of commits and the inline trailing signature of tags",
+               "git only calls the verifier for signatures starting with a known armor line; other objects are not compared",
+               "three or more gpgsig regions in a tag header are undefined behaviour in git 2.39 (it aborts): excluded"]
+RULE = ("case = stored commit/tag bytes with 0..4 signature headers in any header position, continuation lines, gpgsig-prefixed other "
+        "headers, inline PGP/SSH/X509 blocks (buckets sigs, canonical, permuted, dups, oddident, oddhdr, eofhdr, trunc, junk), optionally one "
+        "exported field mutated after Decode; non-trivial = contains a gpgsig header or an armor line, or is a mutation case; distinct by content")
 
 VISIBLE_C = ["msg", "tree", "addparent", "enc", "addextra", "a.name", "a.email", "a.ts", "a.tz", "c.name", "c.email", "c.ts", "c.tz", "hash"]
 INVISIBLE_C = ["none", "sig", "sig256", "a.nsec", "c.nsec"]
